@@ -26,6 +26,16 @@ def run(prop, path):
         except Exception as ex: out = f'{type(ex).__name__}: {ex}'      # noqa
         print(f"{r['command']}{tuple(r.get('args', []))}.validator({r['frame']}) -> {out}")
         return 0
+    if r.get('sensor_origin') and r.get('data'):
+        import copy, goodwe, goodwe.protocol as PR
+        cls, table, sid = r['sensor_origin']
+        s0 = next(x for x in getattr(getattr(goodwe, cls), table) if x.id_ == sid)
+        s1 = copy.copy(s0); s1.offset = 0
+        if hasattr(s1, '_offsetL'): s1._offsetL = 2
+        try: out = repr(s1.read(PR.ProtocolResponse(bytes.fromhex(r['data']), None)))
+        except Exception as ex: out = f'{type(ex).__name__}: {ex}'      # noqa
+        print(f"{type(s1).__name__} (as {cls}.{table}.{sid}, moved to offset 0).read(bytes {r['data']}) -> {out}")
+        return 0
     print('stored input:', json.dumps(r, indent=1)[:4000])
     print('re-run the check to re-evaluate this input class on the current tree: ./check', prop)
     return 0
